@@ -38,7 +38,7 @@ func genCase(no int) caseDef {
 }
 
 func run(c *vf.Ctx) {
-	c.Rule("case = live in-process 3-node cluster whose nodes run with / without a credential store (store on n1 only, on n2+n3 only, on all, on none); request = kind {execute, queued execute with wait, query at strong / linearizable / weak, unified read-write, unified strong read, load (SQL text), load (SQLite file), backup (binary, SQL), remove, stepdown to a named node} x ?redirect {off,on} x credentials {none, admin, user with query only, user with load+backup only, wrong password} x contacted node {n1,n2,n3}, in seeded order, leadership being moved by the stepdown requests themselves so that every node is leader and follower in turn; plus lost-response probes (the follower's fresh inter-node connection is cut right after the request was written) bursts placed at seeded points between the requests of that sequence (about one per five requests, and after its last leadership-moving request): through every follower that has forwarded to the current leader before, pool size + 1 (3..8) requests {execute, unified read-write, strong read, weak read}, each with its own token, are sent at the same time while the leader's answers are delayed by 15 ms per read so that they are all in flight together; and a final phase of concurrent tokened writes to all nodes while leadership is moved. Every write inserts a unique token into an oplog table. non-trivial = request with a verdict; distinct by (phase, kind, expected outcome, at-leader, redirect, credentials, store on contacted node, store on leader, cut) Every twelfth burst follows a slow-leader probe (applies slowed by a hook, forwarded write with a 200 ms timeout abandoned by the follower while the leader executes it).")
+	c.Rule("case = live in-process 3-node cluster whose nodes run with / without a credential store (store on n1 only, on n2+n3 only, on all, on none); request = kind {execute, queued execute with wait, query at strong / linearizable / weak, unified read-write, unified read-only at strong / linearizable / weak, load (SQL text), load (SQLite file), backup (binary, SQL), remove, stepdown to a named node} x ?redirect {off,on} x credentials {none, admin, user with query only, user with load+backup only, wrong password} x contacted node {n1,n2,n3}, in seeded order, leadership being moved by the stepdown requests themselves so that every node is leader and follower in turn; plus lost-response probes (the follower's fresh inter-node connection is cut right after the request was written) bursts placed at seeded points between the requests of that sequence (about one per five requests, and after its last leadership-moving request): through every follower that has forwarded to the current leader before, pool size + 1 (3..8) requests {execute, unified read-write, strong read, weak read}, each with its own token, are sent at the same time while the leader's answers are delayed by 15 ms per read so that they are all in flight together; and a final phase of concurrent tokened writes to all nodes while leadership is moved. Every write inserts a unique token into an oplog table. non-trivial = request with a verdict; distinct by (phase, kind, expected outcome, at-leader, redirect, credentials, store on contacted node, store on leader, cut) Every twelfth burst follows a slow-leader probe (applies slowed by a hook, forwarded write with a 200 ms timeout abandoned by the follower while the leader executes it).")
 	c.Assume("expected outcome: the contacted node's own endpoint check (its store, if any) -> 401; at the leader -> served; ?redirect on a follower -> 301 with the leader's API URL and nothing executed; otherwise forwarded: the caller's credentials evaluated against the leader's store -> 401 or served exactly once on the leader")
 	c.Assume("monitors: recording credential stores on every node (which user/password/permission each node's HTTP and inter-node check was asked about), leader commit index and oplog token count read directly from the leader's Store before and after every request, response compared with the leader's own answer (reads, backups) or with the result the leader computes for the write on the observed state; final per-node dumps and token counts at quiescence")
 	c.Assume("bursts: every request is judged on its own -- 200, its token on the leader exactly once, last_insert_id = the row that holds its token, the read echoes its token, raft_index inside the commit-index window of the burst, distinct, and ordered like the inserted rows -- and the burst as a whole: the leader built exactly one raft command per request that goes through the log, and was asked only about the caller's credentials")
